@@ -790,7 +790,7 @@ fn run_case(case: &LbCase, out: &mut Outcome, want_trace: bool) {
     }
     // under injected failures every clause is also C07's ("failures never cause ..."); the framing
     // clauses stay C05's ("every write ... no write contains a partial line") and the conservation
-    // clauses stay C06's ("by the time a later flush returns Ok"), C19 is fault-free only
+    // clauses stay C06's ("by the time a later flush returns Ok"), C19 keeps its own clauses to itself
     if !judged_fault_free {
         for v in out.violations.iter_mut() {
             if v.props.iter().any(|p| p == "C13") && v.clause.starts_with("net.") {
